@@ -29,12 +29,19 @@ TRUSTED = c01.TRUSTED
 
 def one_case(ctx, kind, inp, inp2, user_seed, check_model=True):
     rng = random.Random(user_seed)
+    if kind in ("py", "cs", "cpp") and (inp.get("reuse_iface") or (user_seed % 10 < 3 and "iface_table" not in inp2)):
+        # the caller's Interface object (that of the old model) is handed to the generation of the old AND of the new model
+        inp = dict(inp, reuse_iface="c02-%d" % user_seed)
+        inp2 = dict(inp2, iface_table=inp["table"], reuse_iface=inp["reuse_iface"])
+        presv.IFACES.pop(inp["reuse_iface"], None)
+        ctx.count("reused_interface_object")
+    inp2_fresh = {k: v for k, v in inp2.items() if k != "reuse_iface"}
     with scratch() as d:
         out = os.path.join(d, "out")
         ref = os.path.join(d, "ref")
         try:
             presv.run_kind(kind, out, inp)
-            presv.run_kind(kind, ref, inp2)
+            presv.run_kind(kind, ref, inp2_fresh)
         except Exception as e:  # noqa -- generator rejects one of the models
             ctx.count("generator_rejected_input:%s" % type(e).__name__)
             return "trivial"
